@@ -180,6 +180,8 @@ var c14Binds = []struct{ key, action string }{
 	{"alt-7", "show-header"},
 	{"alt-8", "hide-input"},
 	{"alt-9", "bell"},
+	{"alt-0", "execute-silent(EX 5 {})"},
+	{"ctrl-o", "execute(EX 6 {} {q})"},
 }
 
 func genHostileInput(r *zsim.Rng, cols, rows int) sysEvent {
@@ -384,6 +386,24 @@ func genC14Plan(r *zsim.Rng) *sysPlan {
 		p.Events = append(p.Events[:at:at], append(seq, p.Events[at:]...)...)
 		c14DropArg(p, "--no-mouse")
 	}
+	// Targeted mode: commands whose template needs the current line, run when there is none (empty input or
+	// a query nothing matches), then a signal from outside: whatever state the skipped command left behind
+	// must not make fzf deaf.
+	sigEnd := false
+	if r.Chance(1, 8) {
+		if r.Bool() {
+			p.Lines.N = 0
+		} else {
+			p.Events = append(p.Events, sysEvent{Kind: "raw", Raw: []byte("zqzqzq")})
+		}
+		p.Args = append(p.Args, "--bind", "alt-0:execute-silent(EX 5 {})", "--bind", "ctrl-o:execute(EX 6 {} {q})")
+		p.Events = append(p.Events, sysEvent{Kind: "settle"})
+		for i := r.Range(1, 3); i > 0; i-- {
+			p.Events = append(p.Events, sysEvent{Kind: "keys", Keys: pick(r, "alt-0", "ctrl-o"), DelayMs: r.Intn(50)})
+		}
+		p.Events = append(p.Events, sysEvent{Kind: "settle"})
+		sigEnd = true
+	}
 	// how the session ends
 	end := sysEvent{Kind: "keys", DelayMs: genDelay(r)}
 	switch r.Intn(9) {
@@ -405,6 +425,9 @@ func genC14Plan(r *zsim.Rng) *sysPlan {
 		end.Keys = "alt-p" // print-query
 	default:
 		end.Kind = "settle" // the harness ends it with ctrl-c
+	}
+	if sigEnd {
+		end = sysEvent{Kind: "sig", Sig: pick(r, "INT", "INT", "TERM"), DelayMs: 2500 + genDelay(r)}
 	}
 	p.Events = append(p.Events, end)
 	return p
